@@ -40,3 +40,6 @@ pub mod h_serde_leaves;
 // `Item` out of the heap buffer or drops one -- do not (> 20 min), so C16 stays not-applicable
 #[path = "h_datetime_printer.rs"]
 pub mod h_datetime_printer;
+// h_error_render.rs (C15: `impl Display for TomlError` through E2, re-rooted crate `te`) is kept for
+// reference but not compiled: on documents of <= 2 bytes CBMC aborts at > 24 GB after 11 min
+// (`raw.split('\n')`, `line_num.to_string()`); error rendering stays outside the claim
